@@ -154,6 +154,7 @@ class Armorable(metaclass=abc.ABCMeta):
             raise ValueError("Expected: ASCII-armored PGP data")
 
         crlf_framed = m.group(0).startswith('-----BEGIN PGP SIGNED MESSAGE-----\r\n')
+        following = m.end()
         m = m.groupdict()
 
         if crlf_framed and m['cleartext'].endswith('\r'):
@@ -178,6 +179,24 @@ class Armorable(metaclass=abc.ABCMeta):
             m['crc'] = Header.bytes_to_int(base64.b64decode(m['crc'].encode()))
             if Armorable.crc24(m['body']) != m['crc']:
                 warnings.warn('Incorrect crc24', stacklevel=3)
+
+        if m['magic'] is not None and m['magic'].endswith('KEY BLOCK') and m['body'] is not None:
+            # several armored keys one after the other in one text (cat alice.asc bob.asc): the packets of the
+            # following key blocks come after those of the first, as in a binary concatenation
+            for nxt in Armorable.__armor_regex.finditer(text, following):
+                if nxt.group('magic') is None or not nxt.group('magic').endswith('KEY BLOCK') or nxt.group('body') is None:
+                    break
+
+                try:
+                    more = bytearray(base64.b64decode(nxt.group('body').encode()))
+
+                except (binascii.Error, TypeError) as ex:
+                    raise PGPError(str(ex)) from ex
+
+                if nxt.group('crc') is not None and Armorable.crc24(more) != Header.bytes_to_int(base64.b64decode(nxt.group('crc').encode())):
+                    warnings.warn('Incorrect crc24', stacklevel=3)
+
+                m['body'] += more
 
         return m
 
